@@ -2,3 +2,7 @@ import CanVerif.Model.StartBit
 import CanVerif.Spec.Bits
 import CanVerif.Proofs.Bits
 import CanVerif.Props.C08
+import CanVerif.Model.Codec
+import CanVerif.Spec.Codec
+import CanVerif.Proofs.Codec
+import CanVerif.Props.C01
